@@ -206,7 +206,7 @@ def run_case(case, seed):
         if emb in ("real_expand", "cadj"):
             # the same matrix in other memory layouts (Fortran order, transposed view, strided view)
             A = fill.quat(m, n, bits=4, lo=-40, hi=40)
-            for lay in ("F", "T", "view"):
+            for lay in ("F", "T", "view", "ro"):
                 Aq = relayout(G.to_quat(A), lay)
                 ok, F = call(u.real_expand if emb == "real_expand" else u.quaternion_to_complex_adjoint, Aq)
                 evals += 1
